@@ -1060,5 +1060,525 @@ theorem outline_of_shallow {g : Glyph R} {raws : List (RawContour R)} (hs : g.sh
   | nil => simp [Glyph.outline, hs, hinv]
   | cons c cs => simp [Glyph.outline, hs]
 
+/-! ### segment pens -/
+
+section Seg
+variable [DecidableEq R]
+
+/-- what `SegmentToPointPen` remembers of a point -/
+def Point.core (p : Point R) : (R × R) × Option Seg := (p.pt, p.seg)
+
+/-- the entries the drawing calls append to `SegmentToPointPen.contour` -/
+def accum : List (SegEv R) → List ((R × R) × Option Seg)
+  | [] => []
+  | .lineTo p :: r => (p, some .line) :: accum r
+  | .curveTo offs l :: r => offs.map (·, none) ++ [(l, some .curve)] ++ accum r
+  | .qCurveTo offs (some l) :: r => offs.map (·, none) ++ [(l, some .qcurve)] ++ accum r
+  | _ :: r => accum r
+
+/-- only lineTo / curveTo / qCurveTo-with-endpoint calls -/
+def drawOnly : List (SegEv R) → Bool
+  | [] => true
+  | .lineTo _ :: r => drawOnly r
+  | .curveTo _ _ :: r => drawOnly r
+  | .qCurveTo _ (some _) :: r => drawOnly r
+  | _ :: _ => false
+
+theorem stpRun_drawOnly (evs tl : List (SegEv R)) (c : List ((R × R) × Option Seg)) (h : drawOnly evs = true) :
+    stpRun (some c) (evs ++ tl) = stpRun (some (c ++ accum evs)) tl := by
+  induction evs generalizing c with
+  | nil => simp [accum]
+  | cons e es ih =>
+    cases e with
+    | lineTo p =>
+      simp only [List.cons_append, stpRun, stpStep, drawOnly, accum] at h ⊢
+      rw [ih _ h]; simp
+    | curveTo offs l =>
+      simp only [List.cons_append, stpRun, stpStep, drawOnly, accum] at h ⊢
+      rw [ih _ h]; simp [List.append_assoc]
+    | qCurveTo offs l =>
+      cases l with
+      | none => simp [drawOnly] at h
+      | some l =>
+        simp only [List.cons_append, stpRun, stpStep, drawOnly, accum] at h ⊢
+        rw [ih _ h]; simp [List.append_assoc]
+    | moveTo p => simp [drawOnly] at h
+    | closePath => simp [drawOnly] at h
+    | endPath => simp [drawOnly] at h
+    | addComponent b t => simp [drawOnly] at h
+
+theorem core_of_off {a : Point R} (h : a.seg = none) : a.core = (a.pt, none) := by simp [Point.core, h]
+
+theorem map_core_off (acc : List (Point R)) (h : ∀ a ∈ acc, a.seg = none) :
+    acc.map Point.core = (acc.map Point.pt).map (·, none) := by
+  induction acc with
+  | nil => rfl
+  | cons a r ih =>
+    simp only [List.map_cons, List.mem_cons, forall_eq_or_imp] at h ⊢
+    rw [core_of_off h.1, ih h.2]
+
+/-- open paths: every segment is emitted, the pen accumulates exactly the points walked over -/
+theorem emit_open (l acc : List (Point R)) (last : Option (R × R)) (hacc : ∀ a ∈ acc, a.seg = none)
+    (hok : segsOK (!acc.isEmpty) l = true) :
+    ∃ evs, emitSegs false last (groupSegs l acc) = some evs ∧ drawOnly evs = true ∧
+      accum evs = (acc ++ l).map Point.core := by
+  induction l generalizing acc last with
+  | nil =>
+    cases acc with
+    | nil => exact ⟨[], rfl, rfl, rfl⟩
+    | cons a r => simp [segsOK] at hok
+  | cons p ps ih =>
+    cases hp : p.seg with
+    | none =>
+      simp only [segsOK, hp] at hok
+      obtain ⟨evs, h1, h2, h3⟩ := ih (acc ++ [p]) last
+        (by intro a ha; simp at ha; rcases ha with ha | ha; exact hacc a ha; rw [ha]; exact hp)
+        (by have e : (!(acc ++ [p]).isEmpty) = true := by cases acc <;> rfl
+            rw [e]; exact hok)
+      exact ⟨evs, by simp only [groupSegs, hp]; exact h1, h2, by simpa [List.append_assoc] using h3⟩
+    | some s =>
+      cases s with
+      | move => simp [segsOK, hp] at hok
+      | line =>
+        simp only [segsOK, hp, Bool.and_eq_true, Bool.not_eq_true', Bool.not_eq_false'] at hok
+        have hnil : acc = [] := by
+          cases acc with
+          | nil => rfl
+          | cons a r => simp at hok
+        subst hnil
+        obtain ⟨evs, h1, h2, h3⟩ := ih [] (some p.pt) (by simp) (by simpa using hok.2)
+        refine ⟨.lineTo p.pt :: evs, ?_, by simpa [drawOnly] using h2, ?_⟩
+        · simp only [groupSegs, hp, List.nil_append, emitSegs, List.reverse_cons, List.reverse_nil]
+          simp [h1]
+        · simp [accum, h3, Point.core, hp]
+      | curve =>
+        simp only [segsOK, hp] at hok
+        obtain ⟨evs, h1, h2, h3⟩ := ih [] (some p.pt) (by simp) (by simpa using hok)
+        refine ⟨.curveTo (acc.map Point.pt) p.pt :: evs, ?_, by simpa [drawOnly] using h2, ?_⟩
+        · simp only [groupSegs, hp, emitSegs, List.reverse_append, List.reverse_cons, List.reverse_nil,
+            List.nil_append, List.singleton_append, List.reverse_reverse]
+          simp [h1]
+        · simp [accum, h3, map_core_off acc hacc, Point.core, hp, List.append_assoc]
+      | qcurve =>
+        simp only [segsOK, hp] at hok
+        obtain ⟨evs, h1, h2, h3⟩ := ih [] (some p.pt) (by simp) (by simpa using hok)
+        refine ⟨.qCurveTo (acc.map Point.pt) (some p.pt) :: evs, ?_, by simpa [drawOnly] using h2, ?_⟩
+        · simp only [groupSegs, hp, emitSegs, List.reverse_append, List.reverse_cons, List.reverse_nil,
+            List.nil_append, List.singleton_append, List.reverse_reverse]
+          simp [h1]
+        · simp [accum, h3, map_core_off acc hacc, Point.core, hp, List.append_assoc]
+
+end Seg
+
+section Seg
+variable [DecidableEq R]
+
+/-- the current point after walking over `l` (the last on-curve point met, else the initial one) -/
+def lastOn : List (Point R) → Option (R × R) → Option (R × R)
+  | [], last => last
+  | p :: ps, last => lastOn ps (if p.seg.isSome then some p.pt else last)
+
+theorem groupSegs_snoc_ne_nil (l acc : List (Point R)) (P : Point R) (s : Seg) (hP : P.seg = some s) :
+    groupSegs (l ++ [P]) acc ≠ [] := by
+  induction l generalizing acc with
+  | nil => simp [groupSegs, hP]
+  | cons p ps ih =>
+    cases hp : p.seg with
+    | none => simpa [groupSegs, hp] using ih (acc ++ [p])
+    | some s' => simp [groupSegs, hp]
+
+/-- closed paths: all segments but possibly the closing `line` are emitted -/
+theorem emit_closed (P : Point R) (sP : Seg) (hP : P.seg = some sP) (l acc : List (Point R))
+    (last : Option (R × R)) (hacc : ∀ a ∈ acc, a.seg = none)
+    (hok : segsOK (!acc.isEmpty) (l ++ [P]) = true) :
+    ∃ evs, emitSegs true last (groupSegs (l ++ [P]) acc) = some evs ∧ drawOnly evs = true ∧
+      accum evs = (acc ++ l).map Point.core ++
+        (if sP = .line ∧ some P.pt ≠ lastOn l last then [] else [P.core]) := by
+  induction l generalizing acc last with
+  | nil =>
+    cases sP with
+    | move => simp [segsOK, hP] at hok
+    | line =>
+      simp only [List.nil_append, segsOK, hP, Bool.and_eq_true, Bool.not_eq_true', Bool.not_eq_false'] at hok
+      have hnil : acc = [] := by
+        cases acc with
+        | nil => rfl
+        | cons a r => simp at hok
+      subst hnil
+      by_cases he : some P.pt = last
+      · refine ⟨[.lineTo P.pt], ?_, rfl, ?_⟩
+        · simp [groupSegs, hP, emitSegs, he]
+        · simp [accum, lastOn, he, Point.core, hP]
+      · refine ⟨[], ?_, rfl, ?_⟩
+        · simp [groupSegs, hP, emitSegs, he]
+        · simp [accum, lastOn, he]
+    | curve =>
+      refine ⟨[.curveTo (acc.map Point.pt) P.pt], ?_, rfl, ?_⟩
+      · simp [groupSegs, hP, emitSegs]
+      · simp [accum, map_core_off acc hacc, Point.core, hP]
+    | qcurve =>
+      refine ⟨[.qCurveTo (acc.map Point.pt) (some P.pt)], ?_, rfl, ?_⟩
+      · simp [groupSegs, hP, emitSegs]
+      · simp [accum, map_core_off acc hacc, Point.core, hP]
+  | cons p ps ih =>
+    cases hp : p.seg with
+    | none =>
+      simp only [List.cons_append, segsOK, hp] at hok
+      obtain ⟨evs, h1, h2, h3⟩ := ih (acc ++ [p]) last
+        (by intro a ha; simp at ha; rcases ha with ha | ha; exact hacc a ha; rw [ha]; exact hp)
+        (by have e : (!(acc ++ [p]).isEmpty) = true := by cases acc <;> rfl
+            rw [e]; exact hok)
+      refine ⟨evs, by simp only [List.cons_append, groupSegs, hp]; exact h1, h2, ?_⟩
+      simpa [List.append_assoc, lastOn, hp] using h3
+    | some s =>
+      have hne := groupSegs_snoc_ne_nil ps [] P sP hP
+      cases s with
+      | move => simp [segsOK, hp] at hok
+      | line =>
+        simp only [List.cons_append, segsOK, hp, Bool.and_eq_true, Bool.not_eq_true', Bool.not_eq_false'] at hok
+        have hnil : acc = [] := by
+          cases acc with
+          | nil => rfl
+          | cons a r => simp at hok
+        subst hnil
+        obtain ⟨evs, h1, h2, h3⟩ := ih [] (some p.pt) (by simp) (by simpa using hok.2)
+        refine ⟨.lineTo p.pt :: evs, ?_, by simpa [drawOnly] using h2, ?_⟩
+        · simp only [List.cons_append, groupSegs, hp, List.nil_append, emitSegs, List.reverse_cons, List.reverse_nil]
+          simp [h1, hne]
+        · simp [accum, h3, Point.core, hp, lastOn]
+      | curve =>
+        simp only [List.cons_append, segsOK, hp] at hok
+        obtain ⟨evs, h1, h2, h3⟩ := ih [] (some p.pt) (by simp) (by simpa using hok)
+        refine ⟨.curveTo (acc.map Point.pt) p.pt :: evs, ?_, by simpa [drawOnly] using h2, ?_⟩
+        · simp only [List.cons_append, groupSegs, hp, emitSegs, List.reverse_append, List.reverse_cons,
+            List.reverse_nil, List.nil_append, List.singleton_append, List.reverse_reverse]
+          simp [h1]
+        · simp [accum, h3, map_core_off acc hacc, Point.core, hp, List.append_assoc, lastOn]
+      | qcurve =>
+        simp only [List.cons_append, segsOK, hp] at hok
+        obtain ⟨evs, h1, h2, h3⟩ := ih [] (some p.pt) (by simp) (by simpa using hok)
+        refine ⟨.qCurveTo (acc.map Point.pt) (some p.pt) :: evs, ?_, by simpa [drawOnly] using h2, ?_⟩
+        · simp only [List.cons_append, groupSegs, hp, emitSegs, List.reverse_append, List.reverse_cons,
+            List.reverse_nil, List.nil_append, List.singleton_append, List.reverse_reverse]
+          simp [h1]
+        · simp [accum, h3, map_core_off acc hacc, Point.core, hp, List.append_assoc, lastOn]
+
+end Seg
+
+section Seg
+variable [DecidableEq R]
+
+theorem strip_eq (p : Point R) : p.strip = ⟨p.x, p.y, p.seg, false, none, none⟩ := rfl
+
+theorem stpFlush_core (l : List (Point R)) :
+    stpFlush (l.map Point.core) = drawContour ⟨none, l.map Point.strip⟩ := by
+  simp [stpFlush, drawContour, List.map_map, Function.comp_def, Point.core, Point.pt, strip_eq]
+
+theorem firstOn_none {pts : List (Point R)} (h : firstOn pts = none) : ∀ a ∈ pts, a.seg = none := by
+  induction pts with
+  | nil => simp
+  | cons p ps ih =>
+    simp only [firstOn] at h
+    cases hp : p.seg with
+    | some s => simp [hp] at h
+    | none =>
+      simp only [hp, Option.isSome_none, Bool.false_eq_true, if_false, Option.map_eq_none_iff] at h
+      intro a ha
+      simp at ha
+      rcases ha with ha | ha
+      · rw [ha]; exact hp
+      · exact ih h a ha
+
+theorem firstOn_some {pts : List (Point R)} {i : Nat} (h : firstOn pts = some i) :
+    ∃ offs P after, pts = offs ++ P :: after ∧ offs.length = i ∧ (∀ a ∈ offs, a.seg = none) ∧
+      P.seg.isSome = true := by
+  induction pts generalizing i with
+  | nil => simp [firstOn] at h
+  | cons p ps ih =>
+    simp only [firstOn] at h
+    by_cases hp : p.seg.isSome = true
+    · simp only [hp, if_true, Option.some.injEq] at h
+      exact ⟨[], p, ps, rfl, by simp [← h], by simp, hp⟩
+    · simp only [hp, Bool.false_eq_true, if_false, Option.map_eq_some_iff] at h
+      obtain ⟨j, hj, rfl⟩ := h
+      obtain ⟨offs, P, after, h1, h2, h3, h4⟩ := ih hj
+      refine ⟨p :: offs, P, after, by simp [h1], by simp [h2], ?_, h4⟩
+      intro a ha
+      simp at ha
+      rcases ha with ha | ha
+      · rw [ha]; cases hps : p.seg <;> simp_all
+      · exact h3 a ha
+
+theorem groupSegs_no_move (l acc : List (Point R)) (b : Bool) (hok : segsOK b l = true) :
+    ∀ sg ∈ groupSegs l acc, sg.1 ≠ Seg.move := by
+  induction l generalizing acc b with
+  | nil => simp [groupSegs]
+  | cons p ps ih =>
+    cases hp : p.seg with
+    | none =>
+      simp only [segsOK, hp] at hok
+      simpa [groupSegs, hp] using ih (acc ++ [p]) true hok
+    | some s =>
+      cases s with
+      | move => simp [segsOK, hp] at hok
+      | line =>
+        simp only [segsOK, hp, Bool.and_eq_true] at hok
+        intro sg hsg
+        simp only [groupSegs, hp, List.mem_cons] at hsg
+        rcases hsg with hsg | hsg
+        · rw [hsg]; simp
+        · exact ih [] false hok.2 sg hsg
+      | curve =>
+        simp only [segsOK, hp] at hok
+        intro sg hsg
+        simp only [groupSegs, hp, List.mem_cons] at hsg
+        rcases hsg with hsg | hsg
+        · rw [hsg]; simp
+        · exact ih [] false hok sg hsg
+      | qcurve =>
+        simp only [segsOK, hp] at hok
+        intro sg hsg
+        simp only [groupSegs, hp, List.mem_cons] at hsg
+        rcases hsg with hsg | hsg
+        · rw [hsg]; simp
+        · exact ih [] false hok sg hsg
+
+theorem groupSegs_snoc_getLast (l acc : List (Point R)) (P : Point R) (s : Seg) (hP : P.seg = some s) :
+    ((groupSegs (l ++ [P]) acc).getLast?).bind (fun sg => sg.2.getLast?) = some P := by
+  induction l generalizing acc with
+  | nil => simp [groupSegs, hP]
+  | cons p ps ih =>
+    cases hp : p.seg with
+    | none => simpa [groupSegs, hp] using ih (acc ++ [p])
+    | some s' =>
+      simp only [List.cons_append, groupSegs, hp]
+      rw [List.getLast?_cons_of_ne_nil (groupSegs_snoc_ne_nil ps [] P s hP)]
+      exact ih []
+
+/-- does a walk over `X`, started with/without pending off-curves, end with pending off-curves? -/
+def endsPending (b : Bool) (X : List (Point R)) : Bool :=
+  match X.getLast? with
+  | none => b
+  | some q => q.seg.isNone
+
+theorem segsOK_append (b : Bool) (X Y : List (Point R)) (h : segsOK b (X ++ Y) = true) :
+    segsOK (endsPending b X) Y = true := by
+  induction X generalizing b with
+  | nil => simpa [endsPending] using h
+  | cons x xs ih =>
+    have key : ∀ b', segsOK b' (xs ++ Y) = true → b' = x.seg.isNone → segsOK (endsPending b (x :: xs)) Y = true := by
+      intro b' hb' hb
+      have := ih b' hb'
+      cases xs with
+      | nil => simpa [endsPending, hb] using this
+      | cons y ys =>
+        cases hl : (y :: ys).getLast? with
+        | none => simp at hl
+        | some q =>
+          simp only [endsPending, hl, List.getLast?_cons_cons] at this ⊢
+          exact this
+    cases hx : x.seg with
+    | none => simp only [List.cons_append, segsOK, hx] at h; exact key true h (by simp [hx])
+    | some s =>
+      cases s with
+      | move => simp [segsOK, hx] at h
+      | line => simp only [List.cons_append, segsOK, hx, Bool.and_eq_true] at h; exact key false h.2 (by simp [hx])
+      | curve => simp only [List.cons_append, segsOK, hx] at h; exact key false h (by simp [hx])
+      | qcurve => simp only [List.cons_append, segsOK, hx] at h; exact key false h (by simp [hx])
+
+theorem lastOn_snoc (L : List (Point R)) (Q : Point R) (x : Option (R × R)) (hQ : Q.seg.isSome = true) :
+    lastOn (L ++ [Q]) x = some Q.pt := by
+  induction L generalizing x with
+  | nil => simp [lastOn, hQ]
+  | cons p ps ih => simp [lastOn, ih]
+
+end Seg
+
+section Seg
+variable [DecidableEq R]
+
+theorem split_at (offs : List (Point R)) (P : Point R) (after : List (Point R)) :
+    (offs ++ P :: after).drop (offs.length + 1) = after ∧
+    (offs ++ P :: after).take (offs.length + 1) = offs ++ [P] ∧
+    (offs ++ P :: after).drop offs.length = P :: after ∧
+    (offs ++ P :: after).take offs.length = offs := by
+  induction offs with
+  | nil => simp
+  | cons a r ih => simpa using ih
+
+theorem flushContour_closed (segs : List (Seg × List (Point R))) (hne : segs ≠ [])
+    (hnm : ∀ sg ∈ segs, sg.1 ≠ Seg.move) :
+    flushContour segs =
+      match (segs.getLast?).bind (fun sg => sg.2.getLast?) with
+      | none => none
+      | some lp => (emitSegs true (some lp.pt) segs).map (fun evs => .moveTo lp.pt :: evs ++ [.closePath]) := by
+  cases segs with
+  | nil => exact absurd rfl hne
+  | cons sg rest =>
+    obtain ⟨s, pts⟩ := sg
+    have := hnm (s, pts) (by simp)
+    cases s with
+    | move => exact absurd rfl this
+    | line => rfl
+    | curve => rfl
+    | qcurve => rfl
+
+theorem stpRun_single (st : StpSt R) (e : SegEv R) :
+    stpRun st [e] = (stpStep st e).map (·.2) := by
+  simp only [stpRun]
+  cases stpStep st e with
+  | none => rfl
+  | some r => obtain ⟨a, b⟩ := r; simp
+
+theorem segRoundTrip_single (p : Point R) (h : p.seg = some .move) :
+    segRoundTrip [p] = some (drawContour ⟨none, [p.strip]⟩) := by
+  have := stpFlush_core [p]
+  simp only [List.map_cons, List.map_nil, Point.core, h] at this
+  simp [segRoundTrip, segContour, flushContour, emitSegs, stpRun, stpStep, this]
+
+theorem segRoundTrip_open (p q : Point R) (r : List (Point R)) (hm : p.seg = some .move)
+    (h : segsOK false (q :: r) = true) :
+    segRoundTrip (p :: q :: r) = some (drawContour ⟨none, (p :: q :: r).map Point.strip⟩) := by
+  obtain ⟨evs, h1, h2, h3⟩ := emit_open (q :: r) [] (some p.pt) (by simp) (by simpa using h)
+  have hcore : (p.pt, some Seg.move) = p.core := by simp [Point.core, hm]
+  simp only [segRoundTrip, segContour, hm, if_true, flushContour, h1, Option.map_some, Option.bind_some]
+  simp only [stpRun, stpStep, List.cons_append]
+  rw [stpRun_drawOnly evs [.endPath] _ h2, stpRun_single]
+  simp only [stpStep, Option.map_some, List.nil_append, h3, hcore]
+  rw [← stpFlush_core]
+  simp
+
+theorem segRoundTrip_offonly (p q : Point R) (r : List (Point R)) (hfo : firstOn (p :: q :: r) = none)
+    (h : ∀ l, (q :: r).getLast? = some l → p.pt ≠ l.pt) :
+    segRoundTrip (p :: q :: r) = some (drawContour ⟨none, (p :: q :: r).map Point.strip⟩) := by
+  have hall := firstOn_none hfo
+  have hp : p.seg = none := hall p (by simp)
+  have hm : ¬ p.seg = some Seg.move := by simp [hp]
+  obtain ⟨l, hl⟩ : ∃ l, (q :: r).getLast? = some l := by
+    cases hx : (q :: r).getLast? with
+    | none => simp at hx
+    | some l => exact ⟨l, rfl⟩
+  have hne := h l hl
+  have hlast : (((q :: r).map Point.pt).map (fun x => (x, (none : Option Seg)))).getLast? = some (l.pt, none) := by
+    rw [List.getLast?_map, List.getLast?_map, hl]; rfl
+  have hcore := map_core_off (p :: q :: r) hall
+  simp only [segRoundTrip, segContour, hm, if_false, hfo, Option.bind_some]
+  simp only [stpRun, stpStep, List.map_cons, hlast]
+  simp only [List.map_cons] at hlast hcore
+  simp only [hlast, hne, if_false, Option.map_some, List.nil_append, List.append_nil]
+  have hf := stpFlush_core (p :: q :: r)
+  simp only [List.map_cons] at hf
+  rw [← hf, hcore]
+  simp
+
+end Seg
+
+section Seg
+variable [DecidableEq R]
+
+theorem stpStep_close_merge (x : R × R) (ty : Option Seg) (rr : List ((R × R) × Option Seg)) :
+    stpStep (some ((x, some Seg.move) :: (rr ++ [(x, ty)]))) .closePath =
+      some (none, stpFlush ((x, ty) :: rr)) := by
+  simp [stpStep]
+
+theorem stpStep_close_line (x : R × R) (rr : List ((R × R) × Option Seg)) (l : (R × R) × Option Seg)
+    (hl : rr.getLast? = some l) (hne : x ≠ l.1) :
+    stpStep (some ((x, some Seg.move) :: rr)) .closePath = some (none, stpFlush ((x, some Seg.line) :: rr)) := by
+  simp [stpStep, hl, hne]
+
+theorem stpStep_close_single (x : R × R) :
+    stpStep (some [(x, some Seg.move)]) .closePath = some (none, stpFlush [(x, some Seg.line)]) := by
+  simp [stpStep]
+
+theorem segRoundTrip_closed (offs : List (Point R)) (P : Point R) (after : List (Point R))
+    (hPs : P.seg.isSome = true)
+    (h : segsOK false ((after ++ offs) ++ [P]) = true) :
+    (flushContour (groupSegs ((after ++ offs) ++ [P]) [])).bind (stpRun none) =
+      some (drawContour ⟨none, (P :: (after ++ offs)).map Point.strip⟩) := by
+  obtain ⟨sP, hP⟩ : ∃ sP, P.seg = some sP := by
+    cases hx : P.seg with
+    | none => simp [hx] at hPs
+    | some s => exact ⟨s, rfl⟩
+  obtain ⟨evs, h1, h2, h3⟩ := emit_closed P sP hP (after ++ offs) [] (some P.pt) (by simp) (by simpa using h)
+  simp only [List.nil_append] at h3
+  rw [flushContour_closed _ (groupSegs_snoc_ne_nil _ _ P sP hP) (groupSegs_no_move _ _ false h),
+    groupSegs_snoc_getLast _ _ P sP hP]
+  simp only [h1, Option.map_some, Option.bind_some]
+  have hrun : stpRun none (.moveTo P.pt :: evs ++ [.closePath]) =
+      (stpStep (some ((P.pt, some Seg.move) :: accum evs)) .closePath).map (·.2) := by
+    have e0 : stpRun none (.moveTo P.pt :: (evs ++ [.closePath])) =
+        (stpRun (some [(P.pt, some Seg.move)]) (evs ++ [.closePath])).map ([] ++ ·) := rfl
+    rw [List.cons_append, e0, stpRun_drawOnly evs [.closePath] _ h2, stpRun_single]
+    simp only [List.singleton_append]
+    cases stpStep (some ((P.pt, some Seg.move) :: accum evs)) SegEv.closePath <;> simp
+  rw [hrun]
+  have hcoreP : P.core = (P.pt, some sP) := by simp [Point.core, hP]
+  have hf := stpFlush_core (P :: (after ++ offs))
+  simp only [List.map_cons, hcoreP] at hf
+  generalize hLdef : after ++ offs = L at *
+  by_cases hfin : sP = Seg.line ∧ some P.pt ≠ lastOn L (some P.pt)
+  · rw [if_pos hfin, List.append_nil] at h3
+    obtain ⟨hline, hneq⟩ := hfin
+    subst hline
+    rw [h3]
+    rcases List.eq_nil_or_concat L with hL | ⟨L', Q, hL⟩
+    · subst hL
+      simp only [List.map_nil] at hf ⊢
+      rw [stpStep_close_single]
+      simp only [Option.map_some, List.map_cons, List.map_nil]
+      rw [hf]
+    · rw [List.concat_eq_append] at hL
+      subst hL
+      have hQ : Q.seg.isSome = true := by
+        have := segsOK_append false (L' ++ [Q]) [P] h
+        simp only [endsPending, List.getLast?_append, List.getLast?_singleton, Option.some_or, segsOK, hP,
+          Bool.and_eq_true, Bool.not_eq_true', Option.isNone_eq_false_iff] at this
+        exact this.1
+      rw [lastOn_snoc L' Q _ hQ] at hneq
+      have hne : P.pt ≠ Q.core.1 := fun e => hneq (by rw [e]; rfl)
+      have hlast : ((L' ++ [Q]).map Point.core).getLast? = some Q.core := by
+        simp [List.getLast?_map]
+      rw [stpStep_close_line _ _ _ hlast hne]
+      simp only [Option.map_some, List.map_cons]
+      rw [hf]
+  · rw [if_neg hfin] at h3
+    rw [h3, hcoreP, stpStep_close_merge]
+    simp only [Option.map_some, List.map_cons]
+    rw [hf]
+
+/-- **Segment round trip of one contour.** -/
+theorem segRoundTrip_faithful (pts : List (Point R)) (h : SegFaithful pts) :
+    segRoundTrip pts = some (drawContour ⟨none, (rotateToFirstOn pts).map Point.strip⟩) := by
+  match pts, h with
+  | [], h => exact absurd h (by simp [SegFaithful])
+  | [p], h =>
+    have hp : p.seg = some Seg.move := h
+    rw [segRoundTrip_single p hp]
+    simp [rotateToFirstOn, firstOn, hp]
+  | p :: q :: r, h =>
+    by_cases hm : p.seg = some Seg.move
+    · have h' : segsOK false (q :: r) = true := by simpa [SegFaithful, hm] using h
+      rw [segRoundTrip_open p q r hm h']
+      simp [rotateToFirstOn, firstOn, hm]
+    · cases hfo : firstOn (p :: q :: r) with
+      | none =>
+        have h' : ∀ l, (q :: r).getLast? = some l → p.pt ≠ l.pt := by
+          simpa [SegFaithful, hm, hfo] using h
+        rw [segRoundTrip_offonly p q r hfo h']
+        simp [rotateToFirstOn, hfo]
+      | some i =>
+        have h' : segsOK false ((p :: q :: r).drop (i + 1) ++ (p :: q :: r).take (i + 1)) = true := by
+          simpa [SegFaithful, hm, hfo] using h
+        obtain ⟨offs, P, after, hpts, hlen, hoffs, hPs⟩ := firstOn_some hfo
+        obtain ⟨s1, s2, s3, s4⟩ := split_at offs P after
+        rw [← hlen, hpts, s1, s2] at h'
+        have hc := segRoundTrip_closed offs P after hPs (by simpa [List.append_assoc] using h')
+        simp only [segRoundTrip, segContour, hm, if_false, hfo]
+        simp only [rotateToFirstOn, hfo]
+        rw [← hlen, hpts, s1, s2, s3, s4]
+        simpa [List.append_assoc] using hc
+
+end Seg
+
 end Pen
 end DefconModel
